@@ -89,7 +89,7 @@ def claimed() -> list[str]:
 
 
 def cmd_run(names: list[str]) -> int:
-    names = names or sorted(os.listdir(SEEDED))
+    names = names or sorted(n for n in os.listdir(SEEDED) if os.path.isdir(os.path.join(SEEDED, n)))
     st = sh(["git", "-C", "/repo", "status", "--porcelain"]).stdout.strip()
     if st:
         print("/repo is dirty; refusing")
